@@ -1,0 +1,50 @@
+//go:build verif
+
+package parser2
+
+// Verification hook (build tag verif): exposes the token stream the parser sees.
+// Add-only; not compiled without the tag.
+
+// VerifToken is an exported copy of Token.
+type VerifToken struct {
+	Kind  int
+	Image string
+	Line  int
+}
+
+// VerifTokenKinds names the token kinds by their numeric value.
+var VerifTokenKinds = []string{"ident", "keyword", "open", "close", "openBracket", "closeBracket",
+	"openCurly", "closeCurly", "dot", "comma", "colon", "semicolon", "number", "string", "operate", "eof", "invalid"}
+
+func (p *Parser[V]) verifDetector() OperatorDetector {
+	if p.operatorDetect == nil {
+		var op []string
+		op = append(op, p.operators...)
+		op = append(op, "=", "->")
+		for u := range p.unary {
+			op = append(op, u)
+		}
+		return NewOperatorDetector(op)
+	}
+	return p.operatorDetect
+}
+
+// VerifTokens tokenizes src with the tokenizer configured exactly as Parse configures it
+// and drains it completely (so no goroutine is left behind).
+func (p *Parser[V]) VerifTokens(src string) []VerifToken {
+	tokenizer :=
+		NewTokenizer(src, p.number, p.identifier, p.verifDetector()).
+			SetTextOperators(p.textOperators).
+			SetKeyWords(p.keyWords).
+			SetComments(p.allowComments).
+			SetComfort(p.comfort).
+			Start()
+	var res []VerifToken
+	for {
+		t := tokenizer.Next()
+		if t.typ == tEof {
+			return res
+		}
+		res = append(res, VerifToken{Kind: int(t.typ), Image: t.image, Line: int(t.Line)})
+	}
+}
